@@ -27,6 +27,6 @@ NEXT MissNext
 SYMMETRY Sym
 VIEW View
 CONSTRAINT Bound
-INVARIANTS Inv ErrOnlyQuorum0
+INVARIANTS Inv NoEndBlockError
 PROPERTIES MCActivationRule MCDeactivationRule MCReporterSafe MCGraceSafe MCStatusStable MCVPriceRule MCPriceOnlyAtEndBlock MCPriceRule
 CHECK_DEADLOCK FALSE
